@@ -15,22 +15,25 @@ type JSONMessage map[rscp.Tag]interface{}
 
 func NewJSONMergedMessages(messages []rscp.Message) JSONMessage {
 	jm := JSONMessage{}
-	var arrVal []JSONMessage
 	for _, message := range messages {
 		if messages, isContainer := message.Value.([]rscp.Message); isContainer {
-			if _, exists := jm[message.Tag]; exists && arrVal == nil {
-				arrVal = []JSONMessage{jm[message.Tag].(JSONMessage)}
-			}
-			if arrVal != nil {
-				arrVal = append(arrVal, NewJSONMergedMessages(messages))
-			} else {
-				jm[message.Tag] = NewJSONMergedMessages(messages)
-			}
-			if arrVal != nil {
-				jm[message.Tag] = arrVal
+			merged := NewJSONMergedMessages(messages)
+			switch previous := jm[message.Tag].(type) {
+			case JSONMessage:
+				// second container for this tag
+				jm[message.Tag] = []JSONMessage{previous, merged}
+			case []JSONMessage:
+				jm[message.Tag] = append(previous, merged)
+			default:
+				jm[message.Tag] = merged
 			}
 		} else {
-			jm[message.Tag] = message.Value
+			switch jm[message.Tag].(type) {
+			case JSONMessage, []JSONMessage:
+				// keep the containers already collected for this tag
+			default:
+				jm[message.Tag] = message.Value
+			}
 		}
 	}
 	return jm
